@@ -154,6 +154,16 @@ def run(spec, cfgname, post_depth=0):
         if cert["psd_min"] < -tol * max(1.0, sc):
             res["c01"].append(("cert:not-psd:%s" % be, "residual / LMI multiplier has eigenvalue %.2e" % cert["psd_min"]))
         dual_value = cert["const"]
+        # at an `optimal` solve the solver's own duality gap is within its tolerance: a certificate whose constant is far
+        # from the optimal value is not the solver's certificate (its multipliers were altered on the way), whatever the
+        # scale the altered multipliers suggest
+        try:
+            primal_now = float(pep.objective.eval())
+            if not cfg["dr"] and abs(dual_value - primal_now) > 50 * tol * max(1.0, abs(primal_now)):
+                res["c01"].append(("cert:constant-far-from-optimum:%s" % be, "the identity's constant %.8g is not the optimal value %.8g"
+                                   % (dual_value, primal_now)))
+        except Exception:
+            pass
         if cfg["mode"] == "dual" and not (cert["resid"] > tol * sc):
             if abs(val - dual_value) > 1e-9 * max(1.0, abs(dual_value)):
                 res["c01"].append(("cert:value-not-constant:%s" % be, "returned %.10g but the identity's constant is %.10g" % (val, dual_value)))
